@@ -1050,13 +1050,16 @@ class H5DataV3(DataSet):
         # after second-stage indexing (but before any final keepdims transform)
         weights_channel.transforms = []
 
+        # The indexer keeps the weight selection in force when it was obtained (and no reference to self)
+        weights_select = self._weights_select
+
         # We currently only cater for a single weight type (i.e. either select it or fall back to 1.0)
         def transform(lo_res_weights, keep):
             hi_res_weights = weights_channel[keep]
             # Add corrprods dimension to hi-res weights to enable broadcasting
             if lo_res_weights.ndim > hi_res_weights.ndim:
                 hi_res_weights = hi_res_weights[..., np.newaxis]
-            return lo_res_weights * hi_res_weights if self._weights_select else \
+            return lo_res_weights * hi_res_weights if weights_select else \
                 np.ones_like(lo_res_weights, dtype=np.float32)
         extract = LazyTransform('extract_weights', transform, dtype=np.float32)
         indexer = self._vislike_indexer(self._weights, extract)
@@ -1079,10 +1082,13 @@ class H5DataV3(DataSet):
         indexing on it. Only then will data be loaded into memory.
 
         """
+        # The indexer keeps the flag selection in force when it was obtained (and no reference to self)
+        flags_select = self._flags_select
+
         def transform(flags, keep):
             """Use flagmask to blank out the flags we don't want."""
             # Then convert uint8 to bool -> if any flag bits set, flag is set
-            return np.bool_(np.bitwise_and(self._flags_select, flags))
+            return np.bool_(np.bitwise_and(flags_select, flags))
         extract = LazyTransform('extract_flags', transform, dtype=bool)
         return self._vislike_indexer(self._flags, extract)
 
